@@ -17,7 +17,7 @@ from vf.measure import measured
 from vf.runner import REPO, Ctx, Partial, Violation, digest, hyp_search, shard_map
 
 RULE = ("For each of the 21 extractors: seeds = repository fixtures of its format (<= 400 KB) and small generated documents; inputs = seeds, byte-level mutants (truncate, bit flip, byte set, "
-        "integer stomp, dup, del, insert, splice from another format), container-aware mutants (valid ZIP shell with one member damaged / XML damaged in 10 ways / member dropped or duplicated; "
+        "integer stomp, dup, del, insert, splice from another format), container-aware mutants (valid ZIP shell with one member damaged / XML damaged in 15 ways incl. every decimal attribute set to 10^15, -1, 1e308, NaN, 2^31 (also as a deterministic sweep seed x XML part x value) / member dropped or duplicated; "
         "valid OLE2 shell with one stream damaged), bytes of another format routed to the extractor, and degenerate inputs (empty, 1 byte, magic only). Every case runs in a forked worker "
         "(RLIMIT_CPU 60 s, RLIMIT_AS 3 GiB) through the extractor directly; a third of the cases also through read_file, as a ZIP member through read_archive, as an e-mail attachment through "
         "iterate_supported_attachments, and through cli.main in its four output modes with a strict UTF-8 stdout. Oracle: every outcome is results or an ExtractionError subclass; the worker is not "
